@@ -13,6 +13,9 @@ pub fn main_wrap(prop: &str, run: fn(&mut Ctx)) {
     }
     let opts = Opts::from_args(prop);
     let mut ctx = Ctx::new(opts);
+    if ctx.opts.extra("digests").is_some() {
+        ctx.enable_digests();
+    }
     run(&mut ctx);
     ctx.finish();
 }
